@@ -18,7 +18,9 @@ import time
 
 ID = 'C18'
 LEVEL = 'model_checking'
-RULE = ('explicit enumeration of ALL histories of length <= depth over 11 (deck, options) items chosen to collide '
+RULE = ('explicit enumeration of ALL histories of length <= depth over 12 (deck, options) items chosen to collide (quick tier: '
+        'length 3 over the nine items built to collide in process state, length 2 for pairs involving the three others; '
+        'only maximal histories are run since every step is compared) '
         '(identical cell / surface numbers with different geometry, universe and lattice decks, a deck that '
         'fails midway, the same deck under other options); each history runs in one fresh interpreter and every '
         'step is compared byte-for-byte (header removed) with the golden output of the item from a fresh '
@@ -185,6 +187,29 @@ ITEMS['k'] = ("""deck k: two --lattice options for one cell (the last one counts
 
 m1 13027 1
 """, ['--lattice', '20,0:1,0:0', '--lattice', '21,-1:0,0:1', '--lattice', '20,-1:1,0:0'])
+ITEMS['l'] = ("""deck l: coincident surfaces with different boundary flags, flagged surfaces in a universe used twice
+1 0 1 -2 3 -4 fill=1 imp:n=1
+2 0 5 -6 3 -4 fill=1 (12 0 0) imp:n=1
+3 0 -9 (-1:2:-3:4) (-5:7:-3:4) imp:n=1
+4 0 9 imp:n=0
+11 1 -2.7 -21 u=1 imp:n=1
+12 0 21 -22 u=1 imp:n=1
+13 0 22 u=1 imp:n=1
+
+*1 px -5
++5 px 7
+*2 px 5
++8 px 5
+*6 px 17
++7 px 17
+3 py -5
++4 py 5
+*9 so 60
+*21 pz 0
++22 pz 0.5
+
+m1 13027 1
+""", [])
 NAMES = sorted(ITEMS)
 
 WORKER = r'''
@@ -337,7 +362,14 @@ def custom_main(tier, seed, runner):
             print('NOTE: items %s of the alphabet do not convert on this tree (%s)'
                   % (not_converting, golden[not_converting[0]]['err']))
         # (1) histories
-        histories = [h for L in range(1, depth + 1) for h in itertools.product(NAMES, repeat=L)]
+        if tier == 'quick':
+            # every step of a history is compared, so only maximal histories are run: length 3 over the items
+            # built to collide in process state (a - i), length 2 for the pairs that involve a later item
+            core = [n for n in NAMES if n <= 'i']
+            histories = [h for h in itertools.product(core, repeat=depth)]
+            histories += [h for h in itertools.product(NAMES, repeat=2) if not (h[0] in core and h[1] in core)]
+        else:
+            histories = [h for h in itertools.product(NAMES, repeat=depth)]
         fps = set()
         closed = True
         changed_paths = set()
